@@ -28,6 +28,7 @@ class Outcome:
         self.sender_errors: list[dict] = []
         self.max_pending = 0
         self.deadlock = False
+        self.failed_writes = 0
         self.signature: tuple = ()
         self.sent: dict[tuple, list[str]] = {}
         self.written: dict[tuple, list[str]] = {}
@@ -87,7 +88,7 @@ async def run_schedule(config: dict, prefix: list[int], rng=None) -> Outcome:
 
     async def listener() -> None:
         for n in config["wakes"]:
-            kind, exc = await stepper.rx(f"{n};255;3;0;{wake_type};1\n")
+            kind, exc = await stepper.rx(f"{n};255;3;0;{config.get('listener_type', wake_type)};1\n")
             if kind == "error":
                 info = exc_info(exc)
                 info["text"] = str(exc)[:120]
@@ -106,11 +107,14 @@ async def run_schedule(config: dict, prefix: list[int], rng=None) -> Outcome:
             last = state
 
     step = 0
+    faults_used = 0
     while True:
         await quiesce()
         out.max_pending = max(out.max_pending, len(transport.pending))
         enabled: list[tuple[str, int]] = [("write", i) for i in range(len(transport.pending))]
         enabled += [("start", i) for i, flag in enumerate(started) if not flag]
+        if faults_used < int(config.get("max_faults") or 0):
+            enabled += [("fail", i) for i in range(len(transport.pending))]
         if not enabled:
             if all(t.done() for t in tasks):
                 break
@@ -135,6 +139,11 @@ async def run_schedule(config: dict, prefix: list[int], rng=None) -> Outcome:
             future, line, attempt = transport.pending.pop(index)
             out.labels.append(f"w{attempt}")
             future.set_result(False)
+        elif kind == "fail":
+            future, line, attempt = transport.pending.pop(index)
+            out.labels.append(f"F{attempt}")
+            faults_used += 1
+            future.set_result(True)
         else:
             started[index] = True
             out.labels.append(f"S{index}")
@@ -157,20 +166,24 @@ async def run_schedule(config: dict, prefix: list[int], rng=None) -> Outcome:
     # quiescence reached: one more uncontended wake per node
     transport.gate = False
     if not out.deadlock:
-        for n in sorted(nodes):
-            kind, exc = await stepper.rx(f"{n};255;3;0;{wake_type};1\n")
-            if kind == "error":
-                info = exc_info(exc)
-                info["text"] = str(exc)[:120]
-                info["final_wake"] = True
-                out.listener_errors.append(info)
+        for _round in range(2 if config.get("max_faults") else 1):
+            for n in sorted(nodes):
+                kind, exc = await stepper.rx(f"{n};255;3;0;{wake_type};1\n")
+                if kind == "error":
+                    info = exc_info(exc)
+                    info["text"] = str(exc)[:120]
+                    info["final_wake"] = True
+                    out.listener_errors.append(info)
     await stepper.close()
 
     # per-key history check over unique values; write order = order of Transport.write calls
     for key, val in sent_log:
         out.sent.setdefault(key, []).append(val)
+    fault_mode = bool(config.get("max_faults"))
+    out.failed_writes = sum(1 for e in transport.events if e[0] == "write-fail")
     for kind, _attempt, line in transport.events:
-        if kind != "write-call":
+        # without faults: order of Transport.write CALLS; with injected faults: successful writes in completion order
+        if kind != ("write-ok" if fault_mode else "write-call"):
             continue
         parsed = split_line(line)
         if parsed and parsed[2] == 1:
